@@ -5,7 +5,7 @@ sys.path.insert(0, os.path.join(R.VERIF, 'gen'))
 import session_gen
 
 ENGINE = dict(name='session', runner='session/runner.py', extract='Extract/Extract_session.v', driver='session_driver.ml',
-              glue=('glue.ml', 'glue_z.ml'), accepts=lambda c: c.startswith('5e '))
+              glue=('glue.ml', 'glue_z.ml'), accepts=lambda c: c.startswith('5e '), shrink_from=2)
 
 SHRINK_FROM = 2      # never shrink the configuration field
 
@@ -19,7 +19,7 @@ TRUSTED_COMMON = [
     'extraction (ExtrOcamlBasic only) and ocaml/session_driver.ml incl. the reconstruction of ghost notes from (command text, reply code) for simple sessions in spec mode',
 ]
 ASSUMPTIONS_COMMON = [
-    'no TLS, no AUTH backend, port 25 (not submission), CHUNKING off: the configuration of the harness; those paths are outside this model',
+    'no TLS, port 25 (not submission), CHUNKING off: the configuration of the harness; those paths are outside this model; AUTH: only single-line AUTH PLAIN against the checkpassword stand-in (configuration auth=1), multi-line exchanges end the modelled session',
     'per-recipient filters all pass (no filterconf in the scratch tree); their combination is property C12',
     'the kernel delivers bytes to read() in segment order; a segment arrives when the server blocks in poll()',
 ]
